@@ -1207,6 +1207,14 @@ fn signatures_of(case: &Case, outcome: &Outcome, entry: Option<&str>) -> Vec<Str
 }
 
 fn strip_repo(loc: &str) -> String {
+    // a dependency of the library: name the crate, not where this machine keeps its sources
+    if let Some(i) = loc.find("/registry/src/") {
+        let rest = &loc[i + "/registry/src/".len()..];
+        return match rest.find('/') {
+            Some(j) => format!("dependency:{}", &rest[j + 1..]),
+            None => rest.to_string(),
+        };
+    }
     loc.replace("/repo/", "")
 }
 
